@@ -48,6 +48,8 @@ Variable new : option (Z * nat * nat).
 Hypothesis O_val : ref_ok s' (t_val th').
 Hypothesis O_self : ref_ok s' (t_self th').
 Hypothesis O_slots : forall o i e, In (RObj o i e) (t_slots th') -> o < s_nextobj s'.
+Hypothesis O_cobj : ref_ok s' (t_cobj th').
+Hypothesis O_cull : cull_ok (s_strong s) (s_weak s) (s_heap s') th'.
 Hypothesis O_sabs : sabs (t_pc th') = true -> dget (s_strong s) (t_id th') = None.
 Hypothesis O_wabs : wabs (t_pc th') = true -> dget (s_weak s) (t_id th') = None.
 Hypothesis O_valdef : valdef (t_pc th') = true -> t_val th' <> None.
@@ -59,16 +61,15 @@ Hypothesis O_exc : exc_ok th'.
 Hypothesis O_noexc : forall x, In (RExc x) (t_slots th') -> x = NotFound.
 Hypothesis O_core : core_pc (t_pc th') = true.
 Hypothesis O_mex : t_mex th' = false.
-Hypothesis O_mov : mov_of th' = mov_of th.
+Hypothesis O_mov : mov_of th' = mov_of th \/
+  (mov_of th' = None /\ new = None /\ forall i o, mov_of th = Some (i, o) -> ~ holder s i o (s_epoch s i)).
 Hypothesis O_new : forall i o e, hold_th th' i o e -> hold_th th i o e \/ new = Some (i, o, e).
 Hypothesis O_newc : forall i0 o0 e0, new = Some (i0, o0, e0) -> e0 = s_epoch s i0 /\ registered s i0 o0.
 Hypothesis O_n1 : forall i0 o0 e0, new = Some (i0, o0, e0) ->
-  forall x, x < s_n s -> x <> t -> t_pc (s_thr s x) = F121 -> t_val (s_thr s x) = None -> t_id (s_thr s x) <> i0.
-Hypothesis O_f121 : t_pc th' = F121 ->
-  match t_val th' with
-  | Some o => dget (s_weak s) (t_id th') = Some o
-  | None => forall o, ~ holder s (t_id th') o (s_epoch s (t_id th')) /\ new = None
-  end.
+  forall x k, x < s_n s -> x <> t -> deadw (s_thr s x) = Some k -> k <> i0.
+Hypothesis O_f121 : forall o, t_pc th' = F121 -> t_val th' = Some o -> dget (s_weak s) (t_id th') = Some o.
+Hypothesis O_deadw : forall k, deadw th' = Some k ->
+  dget (s_weak s) k <> None /\ forall o, ~ holder s k o (s_epoch s k) /\ new = None.
 
 Lemma inv_thr_step : Inv s'.
 Proof.
@@ -77,12 +78,21 @@ Proof.
   { intros i0 o0 e0 H. destruct (O_newc _ _ _ H) as (A & B). split; [assumption |].
     intros o' R. eapply registered_fun; eauto. }
   assert (Hep : forall i, s_epoch s i <= s_epoch s' i) by (intros; rewrite Ee; lia).
-  assert (Hreg : forall i o, registered s i o -> registered s' i o)
-    by (apply (registered_same s s' t th'); assumption).
+  assert (Hreg : forall i o, holder s i o (s_epoch s i) -> registered s i o -> registered s' i o).
+  { intros i o Hh R. destruct O_mov as [M | (M1 & M2 & M3)].
+    - eapply (registered_same s s' t th'); eauto.
+    - destruct R as [A | [A | (x & Hx & A)]].
+      + left. now rewrite Es.
+      + right. left. now rewrite Ew.
+      + destruct (Nat.eq_dec x t) as [-> | Hne].
+        * exfalso. exact (M3 i o A Hh).
+        * right. right. exists x. rewrite Hn. split; [assumption |].
+          now rewrite (thr_other s s' t th' Hthr) by assumption. }
   constructor.
   - use f_w_strong.
   - use f_w_weak.
   - use f_w_thr.
+  - use f_w_cobj.
   - use f_key_strong.
   - use f_key_weak.
   - use f_lock.
@@ -102,15 +112,22 @@ Proof.
   - use f_ep_le.
   - use f_ident.
   - use f_reg.
-    + intros i o _ _ R. now apply Hreg.
-    + intros i0 o0 e0 H _. apply Hreg. now destruct (O_newc _ _ _ H).
-  - use f_f121.
-    + now left.
+    + intros i o _ Hh R. now apply Hreg.
+    + intros i0 o0 e0 H _. destruct (O_newc _ _ _ H) as (_ & R).
+      destruct O_mov as [M | (M1 & M2 & M3)]; [| congruence].
+      eapply (registered_same s s' t th'); eauto.
+  - use f_f121; try (now left). intros o P V. rewrite Ew. now apply O_f121.
+  - use f_deadw; try (now left).
     + left. intros. now rewrite Ee.
-    + intros P. specialize (O_f121 P). rewrite Ew, Ee. destruct (t_val th'); [assumption |].
-      intros o H. destruct (O_f121 o) as (A & B).
+    + intros k D. destruct (O_deadw k D) as (A & B). rewrite Ew, Ee. split; [assumption |].
+      intros o H. destruct (B o) as (B1 & B2).
       eapply (holder_step s s' t th') in H; eauto.
       destruct H as [X | X]; [contradiction | congruence].
+  - use f_cull.
+    + intros x Hx Hne C. rewrite Es, Ew.
+      destruct (inv_w_thr s Hinv x Hx) as (_ & Rs & _). pose proof (inv_w_cobj s Hinv x Hx) as Rc.
+      eapply cull_ok_same; [| | exact C]; intros o E; apply K; [now apply Rc | now apply Rs].
+    + now rewrite Es, Ew.
   - use f_noexc.
   - rewrite Eu. apply (inv_unmod s Hinv).
   - use f_scope.
@@ -139,13 +156,16 @@ Hypothesis Hs_none : dget (s_strong s) i = None.
 Hypothesis Hw_none : dget (s_weak s) i = None.
 Hypothesis Ho : o < s_nextobj s.
 Hypothesis Hk : o_key (s_heap s o) = i.
-Hypothesis Hothers : forall x, x < s_n s -> x <> t -> sabs (t_pc (s_thr s x)) = true -> t_id (s_thr s x) <> i.
+Hypothesis Hothers : forall x k, x < s_n s -> x <> t -> absent_key (s_thr s x) = Some k -> k <> i.
 Hypothesis Hmv : mov_of th = None \/ mov_of th = Some (i, o).
 
 Variable new : option (Z * nat * nat).
 Hypothesis O_val : ref_ok s (t_val th').
 Hypothesis O_self : ref_ok s (t_self th').
 Hypothesis O_slots : forall o i e, In (RObj o i e) (t_slots th') -> o < s_nextobj s.
+Hypothesis O_cobj : ref_ok s (t_cobj th').
+Hypothesis O_cull : cullpc (t_pc th') = false.
+Hypothesis O_deadw : deadw th' = None.
 Hypothesis O_holds : holds (t_pc th') = holds (t_pc th).
 Hypothesis O_wl : forall o, o < s_nextobj s -> (wl th' o <-> wl th o).
 Hypothesis O_sabs : sabs (t_pc th') = false.
@@ -184,8 +204,8 @@ Proof.
     intros o' [A | [A | (x & Hx & A)]]; try congruence.
     destruct (Nat.eq_dec x t) as [-> | Hne].
     - fold th in A. destruct Hmv as [M | M]; congruence.
-    - destruct (mov_core s x i o' Hinv Hx A) as (_ & S & _ & I & _).
-      exfalso. exact (Hothers x Hx Hne S I). }
+    - destruct (mov_core s x i o' Hinv Hx A) as (_ & _ & _ & I).
+      exfalso. exact (Hothers x i Hx Hne I eq_refl). }
   assert (Hep : forall j, s_epoch s j <= s_epoch s' j) by (intros; rewrite Ee; lia).
   assert (K : keys_kept s s') by (intros o1 _; now rewrite Eh).
   constructor.
@@ -194,6 +214,7 @@ Proof.
     + rewrite dget_dset_other in H by assumption. eapply inv_w_strong; eauto.
   - use f_w_weak. lia.
   - use f_w_thr; unfold ref_ok in *; rewrite ?Eo; auto; lia.
+  - use f_w_cobj; unfold ref_ok in *; rewrite ?Eo; auto; lia.
   - intros k o1 H. rewrite Es in H. rewrite Eh. destruct (Z.eq_dec k i) as [-> | Hne].
     + rewrite dget_dset_same in H. injection H as E. rewrite <- E. assumption.
     + rewrite dget_dset_other in H by assumption. eapply inv_key_strong; eauto.
@@ -210,7 +231,8 @@ Proof.
   - intros x Hx S. rewrite Hn in Hx. destruct (Nat.eq_dec x t) as [-> | Hne].
     + rewrite (thr_same s s' t th' Hthr) in S. congruence.
     + rewrite (thr_other s s' t th' Hthr) in * by assumption. rewrite Es.
-      rewrite dget_dset_other; [now apply (inv_sabs s Hinv) | now apply Hothers].
+      rewrite dget_dset_other; [now apply (inv_sabs s Hinv) |].
+      apply (Hothers x (t_id (s_thr s x)) Hx Hne); unfold absent_key; now rewrite S.
   - use f_wabs. congruence.
   - rewrite Es. apply nodup_dset. apply (inv_nodup_strong s Hinv).
   - rewrite Ew. apply (inv_nodup_weak s Hinv).
@@ -226,12 +248,18 @@ Proof.
   - use f_reg.
     + intros i' o' _ _ R. now apply reg_set_mono.
     + intros i0 o0 e0 H _. destruct (O_newis _ _ _ H) as (-> & -> & _). left. rewrite Es. apply dget_dset_same.
-  - use f_f121.
-    + now left.
-    + intros i0 o0 e0 H x Hx Hne P V. destruct (O_newis _ _ _ H) as (-> & _).
-      apply Hothers; try assumption. now rewrite P.
+  - use f_f121; try (now left). intros o1 P. contradiction.
+  - use f_deadw; try (now left).
+    + intros i0 o0 e0 H x k Hx Hne D E. destruct (O_newis _ _ _ H) as (-> & _). subst k.
+      destruct (inv_deadw s Hinv x i Hx D) as (Q & _). congruence.
     + left. intros. now rewrite Ee.
-    + intros P. contradiction.
+    + intros k D. congruence.
+  - use f_cull.
+    + intros x Hx Hne C. rewrite Es, Ew, Eh. apply cull_ok_dset; try assumption.
+      intros Kx E. apply (Hothers x (t_key (s_thr s x)) Hx Hne); [| exact E].
+      unfold absent_key. rewrite Kx. destruct (sabs (t_pc (s_thr s x))) eqn:S; [| reflexivity].
+      destruct (t_pc (s_thr s x)); simpl in *; discriminate.
+    + now apply cull_ok_none.
   - use f_noexc.
   - rewrite Eu. apply (inv_unmod s Hinv).
   - use f_scope.
@@ -265,6 +293,7 @@ Hypothesis P_valdef : valdef p' = false.
 Hypothesis P_tagged : tagged p' = false.
 Hypothesis P_selfdef : selfdef p' = true -> selfdef (t_pc th) = true.
 Hypothesis P_creating : creating p' = false.
+Hypothesis P_cull : cullpc p' = false.
 Hypothesis P_exc : t_exc th = None.
 Hypothesis P_core : core_pc p' = true.
 Hypothesis P_mov : mov_of th = None.
@@ -301,6 +330,7 @@ Proof.
   - intros j o H. rewrite Eo. eapply inv_w_strong; eauto using purge_strong_some.
   - intros j o H. rewrite Eo. eapply inv_w_weak; eauto using purge_weak_some.
   - use f_w_thr; unfold ref_ok in *; rewrite ?Eo; auto; lia.
+  - use f_w_cobj; [lia |]. simpl. unfold ref_ok. rewrite Eo. apply (inv_w_cobj s Hinv t Ht).
   - intros j o H. rewrite Eh. eapply inv_key_strong; eauto using purge_strong_some.
   - intros j o H. rewrite Eh. eapply inv_key_weak; eauto using purge_weak_some.
   - use f_lock. apply lc_same; [assumption | simpl; fold th; congruence].
@@ -339,10 +369,15 @@ Proof.
     + destruct (Nat.eq_dec x t) as [-> | Hne]; [fold th in A; congruence |].
       right. right. exists x. rewrite Hn. split; [assumption |].
       now rewrite (thr_other s s' t _ Hthr) by assumption.
-  - use f_f121; try discriminate.
-    + now right.
-    + now right.
-    + simpl. intros; contradiction.
+  - use f_f121; try discriminate; try (now right). simpl. intros o P. contradiction.
+  - use f_deadw; try discriminate; try (now right).
+    simpl. intros k0 D. unfold deadw in D. simpl in D. exfalso.
+    destruct p'; simpl in *; try discriminate; contradiction.
+  - use f_cull.
+    + intros x Hx Hne C. rewrite Eh. eapply cull_ok_unlocked; [| exact C].
+      destruct (holds (t_pc (s_thr s x))) eqn:Hh; [| reflexivity]. exfalso.
+      apply (inv_lock s Hinv x Hx) in Hh. apply (inv_lock s Hinv t Ht) in P_holds. congruence.
+    + apply cull_ok_none. exact P_cull.
   - use f_noexc. simpl. intros x H. exact (inv_noexc s Hinv t x Ht H).
   - rewrite Eu. apply (inv_unmod s Hinv).
   - use f_scope. simpl. apply (inv_scope s Hinv t Ht).
@@ -386,6 +421,7 @@ Proof.
   - use f_w_strong. lia.
   - intros j o H. rewrite Eo. eapply inv_w_weak; eauto.
   - use f_w_thr; unfold ref_ok in *; rewrite ?Eo; auto; lia.
+  - use f_w_cobj; [lia |]. simpl. unfold ref_ok. rewrite Eo. apply (inv_w_cobj s Hinv t Ht).
   - use f_key_strong.
   - intros j o H. rewrite Eh. eapply inv_key_weak; eauto.
   - use f_lock. apply lc_same; [assumption | simpl; fold th; now rewrite Hpc].
@@ -413,25 +449,137 @@ Proof.
   - use f_ep_le.
   - use f_ident.
   - use f_reg; try discriminate.
-    intros i o E Hh R. pose proof (inv_f121 s Hinv t Ht Hpc) as Q. fold th in Q.
+    intros i o E Hh R.
     destruct R as [A | [A | (x & Hx & A)]].
     + left. now rewrite Es.
     + destruct (Z.eq_dec i (t_id th)) as [-> | Hne].
       * destruct (t_val th) as [o0 |] eqn:V.
-        -- assert (o = o0) by congruence. subst o0. right. right. exists t. rewrite Hn. split; [assumption |].
+        -- pose proof (inv_f121 s Hinv t o0 Ht Hpc V) as Q. fold th in Q.
+           assert (o = o0) by congruence. subst o0. right. right. exists t. rewrite Hn. split; [assumption |].
            rewrite Tsame. unfold mov_of. simpl. now rewrite V.
-        -- exfalso. exact (Q o Hh).
+        -- exfalso. assert (D : deadw (s_thr s t) = Some (t_id th)).
+           { unfold deadw. fold th. now rewrite Hpc, V. }
+           destruct (inv_deadw s Hinv t _ Ht D) as (_ & Q). exact (Q o Hh).
       * right. left. rewrite Ew. now rewrite dget_ddel_other by assumption.
     + destruct (Nat.eq_dec x t) as [-> | Hne].
       * fold th in A. unfold mov_of in A. rewrite Hpc in A. discriminate.
       * right. right. exists x. rewrite Hn. split; [assumption |].
         now rewrite (thr_other s s' t _ Hthr) by assumption.
-  - use f_f121; try discriminate.
-    + now right.
-    + left. intros. now rewrite Ee.
+  - use f_f121; try discriminate; try (now right).
+  - use f_deadw; try discriminate; try (now right).
+  - use f_cull.
+    + intros x Hx Hne C. rewrite Eh. eapply cull_ok_unlocked; [| exact C].
+      destruct (holds (t_pc (s_thr s x))) eqn:Hh; [| reflexivity]. exfalso.
+      apply (inv_lock s Hinv x Hx) in Hh. apply (inv_lock s Hinv t Ht) in Hholds. congruence.
+    + apply cull_ok_none. reflexivity.
   - use f_noexc. simpl. intros x H. exact (inv_noexc s Hinv t x Ht H).
   - rewrite Eu. apply (inv_unmod s Hinv).
   - use f_scope; [reflexivity | simpl; apply (inv_scope s Hinv t Ht)].
 Qed.
 
 End WeakMove.
+
+(* ------------------------------------------------------------------ E: the lock holder rewrites the dicts (cull); no
+   other thread has an assertion about the dicts then *)
+Section LockedDict.
+Variables (s s' : state) (t : nat) (th' : thread).
+Hypothesis Hinv : Inv s.
+Hypothesis Ht : t < s_n s.
+Let th := s_thr s t.
+Hypothesis Hn : s_n s' = s_n s.
+Hypothesis Hthr : s_thr s' = upd (s_thr s) t th'.
+Hypothesis El : s_lock s' = s_lock s.
+Hypothesis Eh : s_heap s' = s_heap s.
+Hypothesis Eo : s_nextobj s' = s_nextobj s.
+Hypothesis Ee : s_epoch s' = s_epoch s.
+Hypothesis Eu : s_unmod s' = s_unmod s.
+Hypothesis L_holds : holds (t_pc th) = true.
+Hypothesis L_holds' : holds (t_pc th') = true.
+
+Hypothesis D_w_strong : forall k o, dget (s_strong s') k = Some o -> o < s_nextobj s.
+Hypothesis D_w_weak : forall k o, dget (s_weak s') k = Some o -> o < s_nextobj s.
+Hypothesis D_key_strong : forall k o, dget (s_strong s') k = Some o -> o_key (s_heap s o) = k.
+Hypothesis D_key_weak : forall k o, dget (s_weak s') k = Some o -> o_key (s_heap s o) = k.
+Hypothesis D_nodup_strong : NoDup (dkeys (s_strong s')).
+Hypothesis D_nodup_weak : NoDup (dkeys (s_weak s')).
+Hypothesis D_disj : forall k, dget (s_strong s') k <> None -> dget (s_weak s') k = None.
+Hypothesis D_reg : forall i o, holder s i o (s_epoch s i) -> registered s i o -> registered s' i o.
+
+Hypothesis O_val : ref_ok s (t_val th').
+Hypothesis O_self : ref_ok s (t_self th').
+Hypothesis O_slots : forall o i e, In (RObj o i e) (t_slots th') -> o < s_nextobj s.
+Hypothesis O_cobj : ref_ok s (t_cobj th').
+Hypothesis O_cull : cull_ok (s_strong s') (s_weak s') (s_heap s) th'.
+Hypothesis O_wl : forall o, o < s_nextobj s -> (wl th' o <-> wl th o).
+Hypothesis O_sabs : sabs (t_pc th') = false.
+Hypothesis O_wabs : wabs (t_pc th') = false.
+Hypothesis O_valdef : valdef (t_pc th') = false.
+Hypothesis O_tagged : tagged (t_pc th') = false.
+Hypothesis O_creating : creating (t_pc th') = false.
+Hypothesis O_selfdef : selfdef (t_pc th') = false.
+Hypothesis O_exc : t_exc th' = None.
+Hypothesis O_slots_eq : t_slots th' = t_slots th.
+Hypothesis O_core : core_pc (t_pc th') = true.
+Hypothesis O_mex : t_mex th' = false.
+Hypothesis O_deadw : deadw th' = None.
+Hypothesis O_f121 : t_pc th' <> F121.
+
+Lemma inv_locked_dict : Inv s'.
+Proof.
+  pose proof (thr_same s s' t th' Hthr) as Tsame.
+  assert (Hep : forall j, s_epoch s j <= s_epoch s' j) by (intros; rewrite Ee; lia).
+  assert (K : keys_kept s s') by (intros o1 _; now rewrite Eh).
+  assert (Hnewc : forall i0 o0 e0, @None (Z * nat * nat) = Some (i0, o0, e0) ->
+            e0 = s_epoch s i0 /\ forall o', registered s i0 o' -> o' = o0) by discriminate.
+  assert (Hnew : forall i o e, hold_th th' i o e -> hold_th th i o e \/ None = Some (i, o, e)).
+  { intros i o e [A | A]; [left; left; now rewrite <- O_slots_eq |].
+    unfold inflight in A. rewrite O_tagged in A. discriminate. }
+  assert (Hother : forall x, x < s_n s -> x <> t -> holds (t_pc (s_thr s x)) = false).
+  { intros x Hx Hne. destruct (holds (t_pc (s_thr s x))) eqn:Hh; [| reflexivity]. exfalso.
+    apply (inv_lock s Hinv x Hx) in Hh. apply (inv_lock s Hinv t Ht) in L_holds. congruence. }
+  constructor.
+  - intros k o H. rewrite Eo. eauto.
+  - intros k o H. rewrite Eo. eauto.
+  - use f_w_thr; unfold ref_ok in *; rewrite ?Eo; auto; lia.
+  - use f_w_cobj; unfold ref_ok in *; rewrite ?Eo; auto; lia.
+  - intros k o H. rewrite Eh. eauto.
+  - intros k o H. rewrite Eh. eauto.
+  - use f_lock. apply lc_same; [assumption | fold th; congruence].
+  - use f_lock_dom. apply lc_same; [assumption | fold th; congruence].
+  - intros x o1 Hx Ho1. use f_wlock; try lia.
+    + apply wc_same; [intros; now rewrite Eh | assumption].
+    + intros o2 H1 H2. lia.
+  - use f_wlock_dom; try lia.
+    + apply wc_same; [intros; now rewrite Eh | assumption].
+    + intros o2 H1 H2. lia.
+    + intros; now rewrite Eh.
+  - intros x Hx S. rewrite Hn in Hx. destruct (Nat.eq_dec x t) as [-> | Hne].
+    + rewrite Tsame in S. congruence.
+    + rewrite (thr_other s s' t _ Hthr) in S by assumption. exfalso.
+      pose proof (Hother x Hx Hne) as Hh. destruct (t_pc (s_thr s x)); simpl in *; discriminate.
+  - intros x Hx S. rewrite Hn in Hx. destruct (Nat.eq_dec x t) as [-> | Hne].
+    + rewrite Tsame in S. congruence.
+    + rewrite (thr_other s s' t _ Hthr) in S by assumption. exfalso.
+      pose proof (Hother x Hx Hne) as Hh. destruct (t_pc (s_thr s x)); simpl in *; discriminate.
+  - assumption.
+  - assumption.
+  - assumption.
+  - use f_valdef. congruence.
+  - use f_valkey. rewrite O_valdef, O_tagged. discriminate.
+  - use f_selfkey. rewrite O_creating. discriminate.
+  - use f_selfdef. congruence.
+  - use f_exc. left. exact O_exc.
+  - use f_ep_le.
+  - use f_ident.
+  - use f_reg; try discriminate. intros i o _ Hh R. now apply D_reg.
+  - use f_f121; try discriminate; try (now right). intros o P. contradiction.
+  - use f_deadw; try discriminate; try (now right). intros k D. congruence.
+  - use f_cull.
+    + intros x Hx Hne C. rewrite Eh. eapply cull_ok_unlocked; [| exact C]. now apply Hother.
+    + now rewrite Eh.
+  - use f_noexc. rewrite O_slots_eq. intros x H. exact (inv_noexc s Hinv t x Ht H).
+  - rewrite Eu. apply (inv_unmod s Hinv).
+  - use f_scope.
+Qed.
+
+End LockedDict.
